@@ -238,6 +238,15 @@ func (l *Lab) hook(point string, node uint64) {
 		switch point {
 		case "stab.done", "fix.done", "cp.done", "notify.applied":
 			l.samplePred(point, node)
+		case "join.requested":
+			// a successor has just made the joiner its predecessor (RequestToJoin returned on this
+			// goroutine, no lock of any node is held here): every node is sampled, so that this
+			// change is not skipped — the monitor judges transitions and must see each of them
+			for _, m := range l.All() {
+				if m.ID != node && m.Node != nil && !m.Stopped() {
+					l.samplePred(point, m.ID)
+				}
+			}
 		}
 	}
 	l.cbMu.RLock()
